@@ -154,7 +154,7 @@ Proof.
     set (live := N.of_nat (length (p0 :: rest))) in *. clearbody live.
     destruct ae.
     + (* at the end: select and return *)
-      match type of H with (let* keyed := ?X in _) = _ => destruct X as [keyed| |] end; cbn [bind] in H; try discriminate.
+      destruct (with_keys sl (p0 :: rest)) as [keyed| |]; cbn [bind] in H; try discriminate.
       destruct keyed as [|[p k] r]; [discriminate|].
       destruct (gp_cost sl (min_by p k r)) as [c| |]; cbn [bind] in H; try discriminate.
       inversion H; subst. cbn [st_max_live st_iterations st_steps] in *. repeat split; try lia.
